@@ -15,7 +15,7 @@ from ..evidence import Run, canon_hash
 PID = "C19"
 SHARDS = {"quick": 4, "thorough": 16}
 SHARD_TIMEOUT = {"quick": 600, "thorough": 1700}
-N = {"quick": 1600, "thorough": 60000}
+N = {"quick": 2400, "thorough": 60000}
 LEVELS = ["column", "column", "series", "frame", "groupby", "groupby",
           "alias", "alias", "polars", "polars"]
 
@@ -131,39 +131,63 @@ def run(run, ctx):
 
 
 def finalize(run, ctx):
-    q = ctx.tier == "quick"
-    m = 1 if q else 30
-    floors = {
-        "rel:element_wise==map:evaluated": 100,
-        "rel:element_wise==all(f(x)):evaluated": 80,
-        "rel:vectorised_map==all(f(x)):evaluated": 80,
-        "rel:element_wise:failure_cases==failing-elements:evaluated": 15,
-        "rel:ignore_na=True:nulls-hidden:evaluated": 15,
-        "rel:ignore_na=True:nulls-never-fail:evaluated": 15,
-        "rel:ignore_na=False:nulls-shown:evaluated": 10,
-        "rel:native-vectorised==all(f(x)):evaluated": 30,
-        "rel:scalar-output==all(f(x)):evaluated": 80,
-        "rel:n_failure_cases:verdict-unchanged:evaluated": 100,
-        "rel:n_failure_cases:subset:evaluated": 20,
-        "rel:n_failure_cases:first-k:evaluated": 8,
-        "rel:raise_warning:never-raises:evaluated": 100,
-        "rel:raise_warning:warns-iff-fails:reject:evaluated": 25,
-        "rel:raise_warning:warns-iff-fails:accept:evaluated": 50,
-        "rel:groupby:exact-groups:evaluated": 70,
-        "rel:groupby:ignore_na=True:nulls-hidden:evaluated": 10,
-        "rel:frame:element_wise==row-map:evaluated": 35,
-        "rel:frame:ignore_na=True:null-rows-hidden:evaluated": 5,
-        "rel:alias:same-check-object:evaluated": 70,
-        "rel:alias:same-outcome:pandas:evaluated": 70,
-        "rel:alias:same-outcome:polars:evaluated": 30,
-        "rel:alias:documented-semantics:evaluated": 30,
-        "rel:polars:element_wise==map:evaluated": 70,
-        "rel:polars:element_wise==all(f(x)):evaluated": 50,
-        "rel:polars:n_failure_cases:verdict-unchanged:evaluated": 70,
-        "rel:polars:raise_warning:never-raises:evaluated": 60,
-        "rel:polars:raise_warning:warns-iff-fails:reject:evaluated": 10,
-    }
-    for a, _, _ in R.ALIASES:
-        floors[f"alias:{a}"] = 8
-    for k, v in floors.items():
+    # about 1/4 of what a quick run (seed 0, N=1600) evaluates on the unchanged
+    # tree; the thorough tier runs 25x as many cases
+    m = 1 if ctx.tier == "quick" else 20
+    for k, v in FLOORS_QUICK.items():
         run.floors[k] = v * m
+
+
+FLOORS_QUICK = {
+    "alias:between": 12,
+    "alias:eq": 10,
+    "alias:ge": 10,
+    "alias:gt": 11,
+    "alias:le": 10,
+    "alias:lt": 12,
+    "alias:ne": 13,
+    "groupby:form:callable:1col:all": 9,
+    "groupby:form:callable:1col:groups": 9,
+    "groupby:form:callable:2col:all": 8,
+    "groupby:form:list:1col:all": 9,
+    "groupby:form:list:1col:groups": 9,
+    "groupby:form:list:2col:all": 10,
+    "groupby:form:str:1col:all": 11,
+    "groupby:form:str:1col:groups": 11,
+    "rel:alias:documented-semantics:evaluated": 42,
+    "rel:alias:same-check-object:evaluated": 80,
+    "rel:alias:same-outcome:pandas:evaluated": 80,
+    "rel:alias:same-outcome:polars:evaluated": 39,
+    "rel:element_wise:failure_cases==failing-elements:evaluated": 19,
+    "rel:element_wise==all(f(x)):evaluated": 112,
+    "rel:element_wise==map:evaluated": 116,
+    "rel:frame:element_wise==row-map:evaluated": 45,
+    "rel:frame:ignore_na=False:null-rows-shown:evaluated": 4,
+    "rel:frame:ignore_na=True:null-rows-hidden:evaluated": 5,
+    "rel:frame:ignore_na=True:nulls-never-fail:evaluated": 5,
+    "rel:frame:n_failure_cases:verdict-unchanged:evaluated": 45,
+    "rel:groupby:exact-groups:evaluated": 80,
+    "rel:groupby:ignore_na=True:nulls-hidden:evaluated": 15,
+    "rel:ignore_na=False:nulls-shown:evaluated": 11,
+    "rel:ignore_na=True:nulls-hidden:evaluated": 14,
+    "rel:ignore_na=True:nulls-never-fail:evaluated": 14,
+    "rel:n_failure_cases:first-k:evaluated": 23,
+    "rel:n_failure_cases:subset:evaluated": 32,
+    "rel:n_failure_cases:verdict-unchanged:evaluated": 116,
+    "rel:native-vectorised==all(f(x)):evaluated": 62,
+    "rel:polars:element_wise==all(f(x)):evaluated": 71,
+    "rel:polars:element_wise==map:evaluated": 76,
+    "rel:polars:ignore_na=True:nulls-hidden:evaluated": 9,
+    "rel:polars:n_failure_cases:verdict-unchanged:evaluated": 76,
+    "rel:polars:native-expression==all(f(x)):evaluated": 52,
+    "rel:polars:raise_warning:never-raises:evaluated": 76,
+    "rel:polars:raise_warning:warns-iff-fails:accept:evaluated": 55,
+    "rel:polars:raise_warning:warns-iff-fails:reject:evaluated": 21,
+    "rel:polars:vectorised_map==all(f(x)):evaluated": 71,
+    "rel:raise_warning:never-raises:evaluated": 153,
+    "rel:raise_warning:warns-iff-fails:accept:evaluated": 99,
+    "rel:raise_warning:warns-iff-fails:reject:evaluated": 54,
+    "rel:scalar-output==all(f(x)):evaluated": 112,
+    "rel:vectorised_map:failure_cases==failing-elements:evaluated": 19,
+    "rel:vectorised_map==all(f(x)):evaluated": 112,
+}
